@@ -32,6 +32,10 @@ def retry_case(draw, brokers):
         fail = st.one_of(gen.outcome_raise(), gen.outcome_timeout()) if timeout else gen.outcome_raise()
         pattern = draw(st.lists(st.booleans(), min_size=1, max_size=7))  # True = this attempt fails
         att = [draw(fail) if f else draw(gen.outcome_ret()) for f in pattern]
+        # "...never exceeds N unless a retry is explicitly forced": some attempts answer with an eager retry / forced retry
+        for k in range(len(att) - 1):
+            if draw(st.integers(0, 7)) == 0:
+                att[k] = draw(gen.outcome_eager(with_sets=False, actions=["force_retry", "force_retry", "retry"]))
         j = {"id": f"j{i}", "actor": "a_plain", "queue": "q0", "retries": n, "attempts": att,
              "store_result": draw(st.booleans())}
         if timeout:
@@ -75,7 +79,7 @@ def run(case: dict) -> Outcome:
             p = _params_of(e)
             if p is None:
                 continue
-            if p.retries.already_tried > j["retries"]:
+            if p.retries.already_tried > j["retries"] and not (s.kind == "eager" and s.outcome.get("action") == "force_retry"):
                 out.v("counter-exceeds-budget", f"job {id_}: requeued with already_tried={p.retries.already_tried} > retries={j['retries']}")
             want = vclock.at(e.t) + timedelta(seconds=s.backoff)
             got = p.delay.next_execution_time
